@@ -1,11 +1,14 @@
 package props
 
 import (
+	"crypto/tls"
 	"fmt"
+	"net"
 	"strings"
 	"testing"
 	"unicode"
 
+	"github.com/cybergarage/go-redis/redis"
 	"pgregory.net/rapid"
 
 	"verif/internal/connsim"
@@ -23,6 +26,14 @@ type c08Case struct {
 	Password string    `json:"password"`
 	Conns    int       `json:"conns"`
 	Steps    []c08Step `json:"steps"`
+	TLS      bool      `json:"tls,omitempty"` // the connections are TLS connections (served with a TLS state, no certificate rule configured)
+}
+
+// tlsServed serves scripted connections the way the TLS listener's connections are served after their handshake.
+type tlsServed struct{ *redis.Server }
+
+func (s tlsServed) VerifServeConn(c net.Conn) error {
+	return s.Server.VerifServeTLSConn(c, &tls.ConnectionState{HandshakeComplete: true})
 }
 
 func reqValue(r []*resp.Bin) resp.Value {
@@ -65,12 +76,19 @@ func evalC08(c c08Case) *Failure {
 		return failf("harness|start", "Start: %v", err)
 	}
 	defer srv.Stop()
-	m, err := connsim.NewMulti(srv, c.Conns, serveTimeout())
+	var served connsim.Server = srv
+	if c.TLS {
+		served = tlsServed{srv}
+	}
+	m, err := connsim.NewMulti(served, c.Conns, serveTimeout())
 	if err != nil {
 		return failf("harness|multi", "opening connections: %v", err)
 	}
 	defer m.CloseAll()
 	what := c.describe()
+	if c.TLS {
+		what = "TLS connections; " + what
+	}
 	authed := make([]bool, c.Conns)
 	db := make([]int, c.Conns)
 	for si, st := range c.Steps {
@@ -196,6 +214,8 @@ func c08Alphabet(p string, full bool) [][]*resp.Bin {
 	if full {
 		// the password split into a user name and a password; a null where the second argument is expected
 		out = append(out, A(bp(p[:1]), bp(p[1:])), A(bp(p[:len(p)-1]), bp(p[len(p)-1:])), A(bp(p), nil), A(nil, bp(p)), A(bp(p), bp(p)))
+		// candidates that consist of white space only
+		out = append(out, A(bp(" ")), A(bp("\t")), A(bp("\r\n")), A(bp(" "), bp(" ")), A(bp(""), bp("\r\n")))
 	}
 	out = append(out, []*resp.Bin{bp("GET"), bp("k")}, []*resp.Bin{bp("SELECT"), bp("3")})
 	if full {
@@ -207,8 +227,8 @@ func c08Alphabet(p string, full bool) [][]*resp.Bin {
 
 func TestC08(t *testing.T) {
 	h := newHarness(t, "C08", "server configured through SetRequirePass+Start; request alphabet = AUTH with every candidate of a dictionary built around the password ('' , null bulk, strict prefixes, password+suffix, case-swapped, embedded NUL, trailing CRLF, leading space, the password), "+
-		"two-argument AUTH with user names '' / default / x and right/wrong/empty passwords, the password split into user name + remainder, a null bulk as first or second of two arguments, AUTH without argument, and non-AUTH commands (GET, SET, SELECT, PING, ECHO, CONFIG GET, INCR, an unknown command). "+
-		"EXHAUSTIVE: all sequences of length <=3 (thorough: length <=4, and length <=3 at 2 more passwords) on one connection; all interleavings of two connections with <=2 requests each over a reduced alphabet; random: 1..3 connections, up to 8 requests each, random interleavings, 5 passwords. "+
+		"two-argument AUTH with user names '' / default / x and right/wrong/empty passwords, the password split into user name + remainder, a null bulk as first or second of two arguments, candidates of white space only, AUTH without argument, and non-AUTH commands (GET, SET, SELECT, PING, ECHO, CONFIG GET, INCR, an unknown command). "+
+		"EXHAUSTIVE: all sequences of length <=3 (thorough: length <=4, and length <=3 at 2 more passwords) on one connection; all interleavings of two connections with <=2 requests each over a reduced alphabet; all sequences of length <=2 on a TLS connection (served with a TLS state); random: 1..3 connections, plain or TLS, up to 8 requests each, random interleavings, 5 passwords. "+
 		"Oracle: per-connection authorization model; any handler call or non-error reply to a non-AUTH command on a connection whose model state is unauthorized, +OK to an AUTH not carrying exactly the password, or a refused exact AUTH is a violation. "+
 		"Non-trivial: a wrong AUTH candidate followed by a non-AUTH command on the same connection, or >=2 connections in different states. Distinct = distinct (password, sequence).")
 	defer h.Finish()
@@ -238,7 +258,7 @@ func TestC08(t *testing.T) {
 		return nt
 	}
 	run := func(c c08Case, class string) bool {
-		h.Col.Case(nontrivial(c), []byte(c.describe()), class)
+		h.Col.Case(nontrivial(c), []byte(fmt.Sprint(c.TLS, c.describe())), class)
 		if h.Col.WantSample() {
 			h.Col.Sample(map[string]any{"case": c.describe(), "class": class})
 		}
@@ -282,6 +302,30 @@ func TestC08(t *testing.T) {
 	}
 	h.Col.Exhaustive("all request sequences of length<=3 (thorough: <=4) on one connection over the full alphabet", complete)
 
+	// the same gate on TLS connections: all sequences of length <= 2
+	{
+		alpha := c08Alphabet("sesame", true)
+		complete := true
+	tls:
+		for _, r1 := range alpha {
+			n++
+			if n%h.NShards != h.Shard {
+				continue
+			}
+			if !run(c08Case{Password: "sesame", Conns: 1, TLS: true, Steps: []c08Step{{Conn: 0, Req: r1}}}, "exhaustive-tls") {
+				complete = false
+				break tls
+			}
+			for _, r2 := range alpha {
+				if !run(c08Case{Password: "sesame", Conns: 1, TLS: true, Steps: []c08Step{{Conn: 0, Req: r1}, {Conn: 0, Req: r2}}}, "exhaustive-tls") {
+					complete = false
+					break tls
+				}
+			}
+		}
+		h.Col.Exhaustive("all request sequences of length<=2 on one TLS connection over the full alphabet", complete)
+	}
+
 	// two connections, <=2 requests each, all interleavings, reduced alphabet
 	small := c08Alphabet("sesame", false)
 	orders := [][]int{{0, 0, 1, 1}, {0, 1, 0, 1}, {0, 1, 1, 0}, {1, 0, 0, 1}, {1, 0, 1, 0}, {1, 1, 0, 0}}
@@ -321,7 +365,7 @@ twoconn:
 		if len(pw) == 1 {
 			alpha = append(alpha, []*resp.Bin{bp("AUTH"), bp(pw)})
 		}
-		c := c08Case{Password: pw, Conns: rapid.IntRange(1, 3).Draw(rt, "conns")}
+		c := c08Case{Password: pw, Conns: rapid.IntRange(1, 3).Draw(rt, "conns"), TLS: rapid.IntRange(0, 3).Draw(rt, "tls") == 0}
 		steps := rapid.IntRange(1, 8*c.Conns).Draw(rt, "steps")
 		for i := 0; i < steps; i++ {
 			c.Steps = append(c.Steps, c08Step{Conn: rapid.IntRange(0, c.Conns-1).Draw(rt, "who"), Req: alpha[rapid.IntRange(0, len(alpha)-1).Draw(rt, "req")]})
